@@ -17,24 +17,1006 @@ def MutexInv (s : FSt) : Prop :=
   (prodHolds s.prod = true ↔ s.mu = some .producer) ∧
   (∀ k r, s.readers[k]? = some r → (readerHolds r.pc = true ↔ s.mu = some (.reader k)))
 
+namespace MF
+
+structure HInv (s : FSt) : Prop where
+  prod : prodHolds s.prod = true ↔ s.mu = some .producer
+  rd : ∀ k r, s.readers[k]? = some r → (readerHolds r.pc = true ↔ s.mu = some (.reader k))
+  ex : ∀ k, s.mu = some (.reader k) → k < s.readers.length
+
+theorem hinv_init (programs : List (List Nat)) : HInv (fInit programs) := by
+  refine ⟨by simp [fInit, prodHolds], ?_, by simp [fInit]⟩
+  intro k r h
+  simp [fInit] at h
+  obtain ⟨a, _, rfl⟩ := h
+  simp [readerHolds, fInit]
+
+def bcF (r : FReader) : FReader := match r.pc with
+  | .parked i => { r with pc := .acqW i }
+  | _ => r
+
+theorem fBroadcast_eq (rs : List FReader) : fBroadcast rs = rs.map bcF := rfl
+
+theorem bcF_holds (r : FReader) : readerHolds (bcF r).pc = readerHolds r.pc := by
+  unfold bcF; split <;> simp_all [readerHolds]
+
+
+theorem fSignalProd_holds (p : FProdPc) : prodHolds (fSignalProd p) = prodHolds p := by
+  cases p <;> rfl
+
+theorem hinv_rset (s s' : FSt) (k : Nat) (r r' : FReader) (hi : HInv s)
+    (hk : s.readers[k]? = some r) (hrd : s'.readers = s.readers.set k r') (hpr : prodHolds s'.prod = prodHolds s.prod)
+    (hmu : (s'.mu = s.mu ∧ readerHolds r'.pc = readerHolds r.pc) ∨
+           (s.mu = none ∧ s'.mu = some (.reader k) ∧ readerHolds r'.pc = true) ∨
+           (s.mu = some (.reader k) ∧ s'.mu = none ∧ readerHolds r'.pc = false)) : HInv s' := by
+  obtain ⟨hp, hr, he⟩ := hi
+  have hlt : k < s.readers.length := (List.getElem?_eq_some_iff.mp hk).1
+  have hrk := hr k r hk
+  refine ⟨?_, ?_, ?_⟩
+  · rw [hpr]
+    rcases hmu with ⟨h1, _⟩ | ⟨h1, h2, _⟩ | ⟨h1, h2, _⟩
+    · rw [h1]; exact hp
+    · rw [h2]; rw [h1] at hp; simp_all
+    · rw [h2]; rw [h1] at hp; simp_all
+  · intro j rj hj
+    rw [hrd, List.getElem?_set] at hj
+    split at hj
+    · subst_vars
+      simp at hj
+      subst hj
+      rcases hmu with ⟨h1, h2⟩ | ⟨h1, h2, h3⟩ | ⟨h1, h2, h3⟩
+      · rw [h1, h2]; exact hrk
+      · simp [h2, h3]
+      · simp [h2, h3]
+    · rename_i hne
+      have := hr j rj hj
+      rcases hmu with ⟨h1, h2⟩ | ⟨h1, h2, h3⟩ | ⟨h1, h2, h3⟩
+      · rw [h1]; exact this
+      · rw [h1] at this; rw [h2, this]; simp; omega
+      · rw [h1] at this; rw [h2, this]; simp; omega
+  · intro j hj
+    rw [hrd, List.length_set]
+    rcases hmu with ⟨h1, h2⟩ | ⟨h1, h2, h3⟩ | ⟨h1, h2, h3⟩
+    · rw [h1] at hj; exact he j hj
+    · rw [h2] at hj; cases hj; exact hlt
+    · rw [h2] at hj; cases hj
+
+theorem hinv_reader (c : MonCfg) (s s' : FSt) (k : Nat) (hi : HInv s)
+    (h : fStepReader c s k = some s') : HInv s' := by
+  unfold fStepReader at h
+  split at h
+  · cases h
+  · rename_i r hk
+    have hrk := hi.rd k r hk
+    split at h
+    all_goals (try split at h)
+    all_goals (first | cases h | skip)
+    all_goals
+      refine hinv_rset s _ k r _ hi hk rfl (by first | rfl | exact fSignalProd_holds _) ?_
+    all_goals simp_all [readerHolds, setReader]
+
+theorem hinv_pset (s s' : FSt) (hi : HInv s) (hrd : s'.readers = s.readers.map bcF ∨ s'.readers = s.readers)
+    (hmu : (s'.mu = s.mu ∧ prodHolds s'.prod = prodHolds s.prod) ∨
+           (s.mu = none ∧ s'.mu = some .producer ∧ prodHolds s'.prod = true) ∨
+           (s.mu = some .producer ∧ s'.mu = none ∧ prodHolds s'.prod = false)) : HInv s' := by
+  obtain ⟨hp, hr, he⟩ := hi
+  have hr' : ∀ k r, s'.readers[k]? = some r → (readerHolds r.pc = true ↔ s.mu = some (.reader k)) := by
+    intro k r hk
+    rcases hrd with h | h
+    · rw [h, List.getElem?_map] at hk
+      cases h0 : s.readers[k]? with
+      | none => simp [h0] at hk
+      | some r0 =>
+        simp [h0] at hk
+        subst hk
+        rw [bcF_holds]; exact hr k r0 h0
+    · rw [h] at hk; exact hr k r hk
+  have hl : s'.readers.length = s.readers.length := by
+    rcases hrd with h | h <;> simp [h]
+  refine ⟨?_, ?_, ?_⟩
+  · rcases hmu with ⟨h1, h2⟩ | ⟨h1, h2, h3⟩ | ⟨h1, h2, h3⟩
+    · rw [h1, h2]; exact hp
+    · simp [h2, h3]
+    · simp [h2, h3]
+  · intro j rj hj
+    have := hr' j rj hj
+    rcases hmu with ⟨h1, h2⟩ | ⟨h1, h2, h3⟩ | ⟨h1, h2, h3⟩
+    · rw [h1]; exact this
+    · rw [h1] at this; rw [h2, this]; simp
+    · rw [h1] at this; rw [h2, this]; simp
+  · intro j hj
+    rw [hl]
+    rcases hmu with ⟨h1, h2⟩ | ⟨h1, h2, h3⟩ | ⟨h1, h2, h3⟩
+    · rw [h1] at hj; exact he j hj
+    · rw [h2] at hj; cases hj
+    · rw [h2] at hj; cases hj
+
+theorem afterPublish_holds (c : MonCfg) (i loc : Nat) (fin last : Bool) :
+    prodHolds (afterPublish c i loc fin last) = false := by
+  unfold afterPublish; split
+  · rfl
+  · split <;> rfl
+
+theorem hinv_prod (c : MonCfg) (s s' : FSt) (hi : HInv s)
+    (h : fStepProd c s = some s') : HInv s' := by
+  have hp := hi.prod
+  cases hpc : s.prod <;> simp only [fStepProd, hpc] at h
+  all_goals (repeat' (split at h))
+  all_goals (first | cases h | skip)
+  all_goals
+    refine hinv_pset s _ hi (by first | exact Or.inr rfl | exact Or.inl (fBroadcast_eq _)) ?_
+  all_goals (try simp only [afterPublish_holds])
+  all_goals simp_all [prodHolds]
+
+theorem hinv_step (c : MonCfg) (s s' : FSt) (l : FLabel) (hi : HInv s)
+    (h : fStep c s l = some s') : HInv s' := by
+  cases l with
+  | r k => exact hinv_reader c s s' k hi h
+  | p => exact hinv_prod c s s' hi h
+
+/-! ### runs -/
+
+theorem fRun_snoc (c : MonCfg) (ls : List FLabel) : ∀ (s s' s'' : FSt) (l : FLabel),
+    fRun c s ls = some s' → fStep c s' l = some s'' → fRun c s (ls ++ [l]) = some s'' := by
+  induction ls with
+  | nil => intro s s' s'' l h1 h2; simp [fRun] at h1; subst h1; simp [fRun, h2]
+  | cons a ls ih =>
+    intro s s' s'' l h1 h2
+    simp only [fRun, List.cons_append] at h1 ⊢
+    cases ha : fStep c s a with
+    | none => simp [ha] at h1
+    | some t => simp only [ha] at h1 ⊢; exact ih t s' s'' l h1 h2
+
+theorem freach_step (c : MonCfg) (programs : List (List Nat)) (s s' : FSt) (l : FLabel)
+    (h : FReachable c programs s) (hs : fStep c s l = some s') : FReachable c programs s' := by
+  obtain ⟨ls, hls⟩ := h
+  exact ⟨ls ++ [l], fRun_snoc c ls _ s s' l hls hs⟩
+
+theorem freach_induct (c : MonCfg) (programs : List (List Nat)) {P : FSt → Prop}
+    (h0 : P (fInit programs))
+    (hs : ∀ s s' l, FReachable c programs s → P s → fStep c s l = some s' → P s') :
+    ∀ s, FReachable c programs s → P s := by
+  have aux : ∀ (ls : List FLabel) (s0 s : FSt), FReachable c programs s0 → P s0 →
+      fRun c s0 ls = some s → P s := by
+    intro ls
+    induction ls with
+    | nil => intro s0 s _ hp h; simp [fRun] at h; subst h; exact hp
+    | cons a ls ih =>
+      intro s0 s hr hp h
+      simp only [fRun] at h
+      cases ha : fStep c s0 a with
+      | none => simp [ha] at h
+      | some t =>
+        simp only [ha] at h
+        exact ih t s (freach_step c programs s0 t a hr ha) (hs s0 t a hr hp ha) h
+  intro s ⟨ls, hls⟩
+  exact aux ls _ s ⟨[], rfl⟩ h0 hls
+
+theorem hinv_reachable (c : MonCfg) (programs : List (List Nat)) (s : FSt)
+    (h : FReachable c programs s) : HInv s :=
+  freach_induct c programs (hinv_init programs) (fun s s' l _ hi hs => hinv_step c s s' l hi hs) s h
+
+/-! ### completion of the section in progress -/
+
+def proj (s : FSt) : MonSt :=
+  { len := s.len, done := s.done, maxLength := s.maxLength, consulted := s.consulted,
+    prod := projProd s.prod, readers := s.readers.map projReader }
+
+theorem absF_eq (c : MonCfg) (s : FSt) : absF c s = proj (completeSection c 8 s) := rfl
+
+/-- the step of the mutex holder -/
+def hstep (c : MonCfg) (s : FSt) : Option FSt :=
+  match s.mu with
+  | none => none
+  | some .producer => fStepProd c s
+  | some (.reader k) => fStepReader c s k
+
+theorem cs_succ (c : MonCfg) (n : Nat) (s : FSt) :
+    completeSection c (n + 1) s = match hstep c s with
+      | some s' => completeSection c n s'
+      | none => s := by
+  unfold hstep
+  rw [completeSection]
+  split
+  · rename_i h; simp [h]
+  · rename_i h; simp only [h]; cases fStepProd c s <;> rfl
+  · rename_i k h; simp only [h]; cases fStepReader c s k <;> rfl
+
+theorem cs_none (c : MonCfg) (n : Nat) (s : FSt) (h : s.mu = none) : completeSection c n s = s := by
+  cases n with
+  | zero => rfl
+  | succ n => rw [cs_succ]; simp [hstep, h]
+
+theorem hstep_fStep (c : MonCfg) (s s' : FSt) (h : hstep c s = some s') : ∃ l, fStep c s l = some s' := by
+  unfold hstep at h
+  split at h
+  · cases h
+  · exact ⟨.p, h⟩
+  · rename_i k _; exact ⟨.r k, h⟩
+
+def rrem : FReaderPc → Nat
+  | .r1 _ => 5 | .r2 _ => 4 | .r3 _ => 3 | .r4 _ => 2 | .r5 _ _ _ => 1 | _ => 0
+
+def prem : FProdPc → Nat
+  | .p1 _ => 2 | .p2 _ => 1 | .s1 _ _ _ _ => 4 | .s2 _ _ _ _ => 3 | .s3 _ _ _ _ => 2 | .s4 _ _ _ _ => 1
+  | _ => 0
+
+def rem (s : FSt) : Nat :=
+  match s.mu with
+  | none => 0
+  | some .producer => prem s.prod
+  | some (.reader k) => match s.readers[k]? with
+    | some r => rrem r.pc
+    | none => 0
+
+theorem rem_le (s : FSt) : rem s ≤ 5 := by
+  unfold rem
+  split
+  · omega
+  · cases s.prod <;> simp [prem]
+  · split
+    · rename_i r _; cases r.pc <;> simp [rrem]
+    · omega
+
+theorem hstep_rem (c : MonCfg) (s : FSt) (t : Tid) (hi : HInv s) (hmu : s.mu = some t) :
+    ∃ s', hstep c s = some s' ∧ rem s' < rem s := by
+  cases t with
+  | producer =>
+    have hp := hi.prod.mpr hmu
+    cases hpc : s.prod <;> simp [hpc, prodHolds] at hp
+    all_goals simp only [hstep, hmu, fStepProd, hpc]
+    all_goals (repeat' split)
+    all_goals refine ⟨_, rfl, ?_⟩
+    all_goals simp [rem, hmu, hpc, prem]
+  | reader k =>
+    have hlt := hi.ex k hmu
+    have hk : s.readers[k]? = some s.readers[k] := List.getElem?_eq_getElem hlt
+    have hh := (hi.rd k _ hk).mpr hmu
+    generalize s.readers[k] = r at hk hh
+    obtain ⟨_, hk'⟩ := List.getElem?_eq_some_iff.mp hk
+    cases hpc : r.pc <;> simp [hpc, readerHolds] at hh
+    all_goals simp only [hstep, hmu, fStepReader, hk, hpc]
+    all_goals (repeat' split)
+    all_goals refine ⟨_, rfl, ?_⟩
+    all_goals simp [rem, hmu, hpc, rrem, setReader, hlt, hk']
+
+theorem cs_stable (c : MonCfg) : ∀ (n : Nat) (s : FSt), HInv s → rem s ≤ n →
+    completeSection c (n + 1) s = completeSection c n s := by
+  intro n
+  induction n with
+  | zero =>
+    intro s hi hr
+    cases hmu : s.mu with
+    | none => rw [cs_none c _ s hmu, cs_none c _ s hmu]
+    | some t =>
+      obtain ⟨s', _, h2⟩ := hstep_rem c s t hi hmu
+      omega
+  | succ n ih =>
+    intro s hi hr
+    cases hmu : s.mu with
+    | none => rw [cs_none c _ s hmu, cs_none c _ s hmu]
+    | some t =>
+      obtain ⟨s', h1, h2⟩ := hstep_rem c s t hi hmu
+      obtain ⟨l, hl⟩ := hstep_fStep c s s' h1
+      rw [cs_succ c (n + 1), cs_succ c n, h1]
+      exact ih s' (hinv_step c s s' l hi hl) (by omega)
+
+theorem cs_stable' (c : MonCfg) (s : FSt) (hi : HInv s) (n : Nat) (hn : 5 ≤ n) :
+    completeSection c n s = completeSection c 5 s := by
+  induction n with
+  | zero => omega
+  | succ n ih =>
+    by_cases h : n + 1 = 5
+    · rw [h]
+    · rw [cs_stable c n s hi (by have := rem_le s; omega)]
+      exact ih (by omega)
+
+/-- a step of the mutex holder does not change the completed section -/
+theorem cs_hstep (c : MonCfg) (s s' : FSt) (hi : HInv s) (h : hstep c s = some s') :
+    completeSection c 8 s' = completeSection c 8 s := by
+  obtain ⟨l, hl⟩ := hstep_fStep c s s' h
+  have hi' := hinv_step c s s' l hi hl
+  rw [cs_succ c 7 s, h]
+  simp only
+  rw [cs_stable' c s' hi' 8 (by omega), cs_stable' c s' hi' 7 (by omega)]
+
+/-! ### steps of a thread that does not hold the mutex commute with the completion -/
+
+theorem hstep_mu (c : MonCfg) (s t : FSt) (h : hstep c s = some t) : t.mu = s.mu ∨ t.mu = none := by
+  unfold hstep at h
+  split at h
+  · cases h
+  · cases hpc : s.prod <;> simp only [fStepProd, hpc] at h
+    all_goals (repeat' (split at h))
+    all_goals (first | cases h | skip)
+    all_goals simp_all
+  · rename_i k hmu
+    unfold fStepReader at h
+    split at h
+    · cases h
+    · split at h
+      all_goals (try split at h)
+      all_goals (first | cases h | skip)
+      all_goals simp_all [setReader]
+
+theorem bcF_map_set (l : List FReader) (j : Nat) (r' : FReader) (hb : bcF r' = r') :
+    fBroadcast (l.set j r') = (fBroadcast l).set j r' := by
+  rw [fBroadcast_eq, fBroadcast_eq, List.map_set, hb]
+
+theorem fStepProd_setReader (c : MonCfg) (s : FSt) (j : Nat) (r' : FReader) (hb : bcF r' = r') :
+    fStepProd c (setReader s j r') = (fStepProd c s).map (fun t => setReader t j r') := by
+  cases hpc : s.prod <;> simp only [fStepProd, setReader, hpc]
+  all_goals (repeat' split)
+  all_goals simp [bcF_map_set _ _ _ hb]
+
+theorem fStepReader_setReader (c : MonCfg) (s : FSt) (j k : Nat) (r' : FReader) (hne : k ≠ j) :
+    fStepReader c (setReader s j r') k = (fStepReader c s k).map (fun t => setReader t j r') := by
+  have hne' : j ≠ k := fun h => hne h.symm
+  unfold fStepReader
+  have : (setReader s j r').readers[k]? = s.readers[k]? := by
+    simp [setReader, List.getElem?_set_ne hne']
+  rw [this]
+  cases s.readers[k]? with
+  | none => rfl
+  | some r =>
+    simp only
+    cases hpc : r.pc <;> simp only [setReader, apply_ite (Option.map _), Option.map_some,
+      Option.map_none, List.set_comm _ _ hne]
+    all_goals (first | rfl | (cases r.todo <;> simp [List.set_comm _ _ hne]))
+
+theorem hstep_setReader (c : MonCfg) (s : FSt) (j : Nat) (r' : FReader) (hb : bcF r' = r')
+    (hmu : s.mu ≠ some (.reader j)) :
+    hstep c (setReader s j r') = (hstep c s).map (fun t => setReader t j r') := by
+  unfold hstep
+  have : (setReader s j r').mu = s.mu := rfl
+  rw [this]
+  split
+  · rfl
+  · exact fStepProd_setReader c s j r' hb
+  · rename_i k hk
+    exact fStepReader_setReader c s j k r' (by intro h; subst h; exact hmu hk)
+
+theorem cs_setReader (c : MonCfg) (j : Nat) (r' : FReader) (hb : bcF r' = r') : ∀ (n : Nat) (s : FSt),
+    s.mu ≠ some (.reader j) →
+    completeSection c n (setReader s j r') = setReader (completeSection c n s) j r' := by
+  intro n
+  induction n with
+  | zero => intro s _; rfl
+  | succ n ih =>
+    intro s hmu
+    rw [cs_succ, cs_succ, hstep_setReader c s j r' hb hmu]
+    cases h : hstep c s with
+    | none => rfl
+    | some t =>
+      simp only [Option.map_some]
+      apply ih
+      rcases hstep_mu c s t h with h1 | h1
+      · rw [h1]; exact hmu
+      · rw [h1]; simp
+
+/-- update of the producer-private part -/
+def upd (a : Nat) (q : FProdPc) (s : FSt) : FSt := { s with consulted := a, prod := q }
+
+theorem fStepReader_upd (c : MonCfg) (s : FSt) (k a : Nat) (q : FProdPc) (hq : fSignalProd q = q) :
+    fStepReader c (upd a q s) k = (fStepReader c s k).map (upd a q) := by
+  unfold fStepReader
+  have : (upd a q s).readers[k]? = s.readers[k]? := rfl
+  rw [this]
+  cases s.readers[k]? with
+  | none => rfl
+  | some r =>
+    simp only
+    cases hpc : r.pc <;> simp only [setReader, upd, apply_ite (Option.map _), Option.map_some,
+      Option.map_none, hq]
+    all_goals (first | rfl | (cases r.todo <;> simp [upd]))
+
+theorem cs_upd (c : MonCfg) (a : Nat) (q : FProdPc) (hq : fSignalProd q = q) : ∀ (n : Nat) (s : FSt),
+    s.mu ≠ some .producer →
+    completeSection c n (upd a q s) = upd a q (completeSection c n s) := by
+  intro n
+  induction n with
+  | zero => intro s _; rfl
+  | succ n ih =>
+    intro s hmu
+    rw [cs_succ, cs_succ]
+    have hh : hstep c (upd a q s) = (hstep c s).map (upd a q) := by
+      unfold hstep
+      have : (upd a q s).mu = s.mu := rfl
+      rw [this]
+      split
+      · rfl
+      · rename_i h; exact absurd h hmu
+      · exact fStepReader_upd c s _ a q hq
+    rw [hh]
+    cases h : hstep c s with
+    | none => rfl
+    | some t =>
+      simp only [Option.map_some]
+      apply ih
+      rcases hstep_mu c s t h with h1 | h1
+      · rw [h1]; exact hmu
+      · rw [h1]; simp
+
+/-! ### the final publish always has `fin = true` -/
+
+def prodOk : FProdPc → Prop
+  | .sAcq _ _ fin last | .s1 _ _ fin last | .s2 _ _ fin last | .s3 _ _ fin last | .s4 _ _ fin last =>
+    last = true → fin = true
+  | _ => True
+
+theorem prodOk_signal (p : FProdPc) (h : prodOk p) : prodOk (fSignalProd p) := by
+  cases p <;> simp_all [fSignalProd, prodOk]
+
+theorem prodOk_after (c : MonCfg) (i loc : Nat) (fin last : Bool) : prodOk (afterPublish c i loc fin last) := by
+  unfold afterPublish
+  split
+  · trivial
+  · split <;> simp [prodOk]
+
+theorem pok_step (c : MonCfg) (s s' : FSt) (l : FLabel) (hi : prodOk s.prod)
+    (h : fStep c s l = some s') : prodOk s'.prod := by
+  cases l with
+  | r k =>
+    simp only [fStep] at h
+    unfold fStepReader at h
+    split at h
+    · cases h
+    · split at h
+      all_goals (try split at h)
+      all_goals (first | cases h | skip)
+      all_goals (first | exact hi | exact prodOk_signal _ hi)
+  | p =>
+    simp only [fStep] at h
+    cases hpc : s.prod <;> simp only [fStepProd, hpc] at h
+    all_goals (repeat' (split at h))
+    all_goals (first | cases h | skip)
+    all_goals (first | exact prodOk_after _ _ _ _ _ | simp_all [prodOk])
+
+theorem pok_reachable (c : MonCfg) (programs : List (List Nat)) (s : FSt)
+    (h : FReachable c programs s) : prodOk s.prod :=
+  freach_induct c programs (P := fun s => prodOk s.prod) (by simp [fInit, prodOk])
+    (fun s s' l _ hi hs => pok_step c s s' l hi hs) s h
+
+/-! ### explicit results of the sections -/
+
+def growMax (c : MonCfg) (done : Bool) (maxLength i : Nat) : Nat :=
+  if !done && decide (maxLength ≤ i) then grownMax c i else maxLength
+
+def growProd (done : Bool) (maxLength i : Nat) (p : FProdPc) : FProdPc :=
+  if !done && decide (maxLength ≤ i) then fSignalProd p else p
+
+def growProdC (done : Bool) (maxLength i : Nat) (p : ProdPc) : ProdPc :=
+  if !done && decide (maxLength ≤ i) then signalProd p else p
+
+def checkEnd (c : MonCfg) (len maxLength i : Nat) : FProdPc :=
+  if len ≥ maxLength then .parked i
+  else if c.chunk = 0 then .sAcq i len false false else .computing i 0 len
+
+def tailEnd (len : Nat) (done : Bool) (i : Nat) (r : FReader) : FReader :=
+  if !done && len ≤ i then { r with pc := .parked i }
+  else { r with pc := .idle, results := (i, len, decide (i < len)) :: r.results }
+
+theorem tailEnd_pc (len : Nat) (done : Bool) (i : Nat) (r : FReader) (p : FReaderPc) :
+    tailEnd len done i { r with pc := p } = tailEnd len done i r := by
+  unfold tailEnd; split <;> rfl
+
+theorem cs_step (c : MonCfg) (n : Nat) (s s' : FSt) (h : hstep c s = some s') :
+    completeSection c (n + 1) s = completeSection c n s' := by
+  rw [cs_succ, h]
+
+theorem cs_r4 (c : MonCfg) (n : Nat) (s : FSt) (j i : Nat) (r : FReader) (hmu : s.mu = some (.reader j))
+    (hk : s.readers[j]? = some r) (hpc : r.pc = .r4 i) :
+    completeSection c (n + 2) s =
+      { s with mu := none, readers := s.readers.set j (tailEnd s.len s.done i r) } := by
+  have hlt : j < s.readers.length := (List.getElem?_eq_some_iff.mp hk).1
+  by_cases hc : (!s.done && decide (s.len ≤ i)) = true
+  · have h1 : hstep c s = some { setReader s j { r with pc := .parked i } with mu := none } := by
+      simp only [hstep, hmu, fStepReader, hk, hpc, hc, if_true]
+    rw [cs_step c _ s _ h1, cs_none _ _ _ rfl]
+    simp [tailEnd, hc, setReader]
+  · have h1 : hstep c s = some (setReader s j { r with pc := .r5 i s.len (decide (i < s.len)) }) := by
+      simp only [hstep, hmu, fStepReader, hk, hpc, hc]; rfl
+    rw [cs_step c _ s _ h1]
+    have h2 : hstep c (setReader s j { r with pc := .r5 i s.len (decide (i < s.len)) }) =
+        some { s with mu := none, readers := s.readers.set j (tailEnd s.len s.done i r) } := by
+      simp [hstep, setReader, hmu, fStepReader, List.getElem?_set_self hlt, tailEnd, hc]
+    rw [cs_step c _ _ _ h2, cs_none _ _ _ rfl]
+
+theorem cs_r1 (c : MonCfg) (n : Nat) (s : FSt) (j i : Nat) (r : FReader) (hmu : s.mu = some (.reader j))
+    (hk : s.readers[j]? = some r) (hpc : r.pc = .r1 i) :
+    completeSection c (n + 5) s =
+      { s with mu := none,
+               maxLength := growMax c s.done s.maxLength i,
+               prod := growProd s.done s.maxLength i s.prod,
+               readers := s.readers.set j (tailEnd s.len s.done i r) } := by
+  have hlt : j < s.readers.length := (List.getElem?_eq_some_iff.mp hk).1
+  by_cases hc : (!s.done && decide (s.maxLength ≤ i)) = true
+  · have h1 : hstep c s = some (setReader s j { r with pc := .r2 i }) := by
+      simp only [hstep, hmu, fStepReader, hk, hpc, hc, if_true]
+    have h2 : hstep c (setReader s j { r with pc := .r2 i }) =
+        some { s with maxLength := grownMax c i, readers := s.readers.set j { r with pc := .r3 i } } := by
+      simp [hstep, setReader, hmu, fStepReader, List.getElem?_set_self hlt]
+    have h3 : hstep c { s with maxLength := grownMax c i, readers := s.readers.set j { r with pc := .r3 i } } =
+        some { s with maxLength := grownMax c i, prod := fSignalProd s.prod,
+                      readers := s.readers.set j { r with pc := .r4 i } } := by
+      simp [hstep, setReader, hmu, fStepReader, List.getElem?_set_self hlt]
+    rw [cs_step c _ s _ h1, cs_step c _ _ _ h2, cs_step c _ _ _ h3,
+      cs_r4 c n { s with maxLength := grownMax c i, prod := fSignalProd s.prod,
+                         readers := s.readers.set j { r with pc := .r4 i } } j i { r with pc := .r4 i } hmu
+        (by simp [List.getElem?_set_self hlt]) rfl]
+    simp [hc, tailEnd_pc, growMax, growProd]
+  · have h1 : hstep c s = some (setReader s j { r with pc := .r4 i }) := by
+      simp only [hstep, hmu, fStepReader, hk, hpc, hc]; rfl
+    rw [cs_step c _ s _ h1,
+      cs_r4 c (n + 2) (setReader s j { r with pc := .r4 i }) j i { r with pc := .r4 i } hmu
+        (by simp [setReader, List.getElem?_set_self hlt]) rfl]
+    simp [hc, tailEnd_pc, setReader, growMax, growProd]
+
+theorem cs_p1 (c : MonCfg) (n : Nat) (s : FSt) (i : Nat) (hmu : s.mu = some .producer)
+    (hpc : s.prod = .p1 i) :
+    completeSection c (n + 2) s =
+      { s with mu := none, prod := checkEnd c s.len s.maxLength i } := by
+  by_cases hc : s.len ≥ s.maxLength
+  · have h1 : hstep c s = some { s with prod := .parked i, mu := none } := by
+      simp only [hstep, hmu, fStepProd, hpc, hc, if_true]
+    rw [cs_step c _ s _ h1, cs_none _ _ _ rfl]
+    simp [hc, checkEnd]
+  · have h1 : hstep c s = some { s with prod := .p2 i } := by
+      simp only [hstep, hmu, fStepProd, hpc, hc, if_false]
+    have h2 : hstep c { s with prod := .p2 i } = some { s with
+        mu := none, prod := if c.chunk = 0 then .sAcq i s.len false false else .computing i 0 s.len } := by
+      simp only [hstep, hmu, fStepProd]
+      split <;> rfl
+    rw [cs_step c _ s _ h1, cs_step c _ _ _ h2, cs_none _ _ _ rfl]
+    simp [hc, checkEnd]
+
+theorem cs_s1 (c : MonCfg) (n : Nat) (s : FSt) (i loc : Nat) (fin last : Bool) (hmu : s.mu = some .producer)
+    (hpc : s.prod = .s1 i loc fin last) :
+    completeSection c (n + 4) s =
+      { s with mu := none, len := loc, done := fin, readers := fBroadcast s.readers,
+               prod := afterPublish c i loc fin last } := by
+  have h1 : hstep c s = some { s with prod := .s2 i loc fin last, len := loc } := by
+    simp only [hstep, hmu, fStepProd, hpc]
+  have h2 : hstep c { s with prod := .s2 i loc fin last, len := loc } =
+      some { s with prod := .s3 i loc fin last, len := loc, done := fin } := by
+    simp only [hstep, hmu, fStepProd]
+  have h3 : hstep c { s with prod := .s3 i loc fin last, len := loc, done := fin } =
+      some { s with prod := .s4 i loc fin last, len := loc, done := fin, readers := fBroadcast s.readers } := by
+    simp only [hstep, hmu, fStepProd]
+  have h4 : hstep c { s with prod := .s4 i loc fin last, len := loc, done := fin, readers := fBroadcast s.readers } =
+      some { s with
+        mu := none, len := loc, done := fin, readers := fBroadcast s.readers,
+        prod := afterPublish c i loc fin last } := by
+    simp only [hstep, hmu, fStepProd]
+  rw [cs_step c _ s _ h1, cs_step c _ _ _ h2, cs_step c _ _ _ h3, cs_step c _ _ _ h4, cs_none _ _ _ rfl]
+
+/-! ### projection lemmas -/
+
+theorem projProd_signal (p : FProdPc) : projProd (fSignalProd p) = signalProd (projProd p) := by
+  cases p <;> simp [fSignalProd, projProd, signalProd]
+  all_goals (split <;> rfl)
+
+theorem projReader_tailEnd (len : Nat) (done : Bool) (i : Nat) (r : FReader) (r0 : Reader)
+    (h1 : r0.todo = r.todo) (h2 : r0.results = r.results) :
+    projReader (tailEnd len done i r) = waitTail len done i r0 := by
+  unfold tailEnd waitTail
+  split <;> simp [projReader, h1, h2]
+
+theorem projReader_bcF (r : FReader) : projReader (bcF r) = Mon.bc (projReader r) := by
+  cases r with
+  | mk pc todo results => cases pc <;> rfl
+
+theorem proj_broadcast (l : List FReader) : (fBroadcast l).map projReader = broadcast (l.map projReader) := by
+  rw [fBroadcast_eq, Mon.broadcast_eq, List.map_map, List.map_map]
+  apply List.map_congr_left
+  intro r _
+  exact projReader_bcF r
+
+theorem proj_setReader_congr (T : FSt) (j : Nat) (a b : FReader) (h : projReader a = projReader b) :
+    proj (setReader T j a) = proj (setReader T j b) := by
+  simp [proj, setReader, List.map_set, h]
+
+theorem setReader_self (s : FSt) (j : Nat) (r : FReader) (hk : s.readers[j]? = some r) :
+    setReader s j r = s := by
+  obtain ⟨hlt, rfl⟩ := List.getElem?_eq_some_iff.mp hk
+  simp [setReader]
+
+/-! ### the simulation, case by case -/
+
+theorem sim_idle (c : MonCfg) (s : FSt) (j i : Nat) (rest : List Nat) (r : FReader) (hi : HInv s)
+    (hk : s.readers[j]? = some r) (hpc : r.pc = .idle) (htd : r.todo = i :: rest) :
+    absF c (setReader s j { r with pc := .acq i, todo := rest }) = absF c s := by
+  have hmu : s.mu ≠ some (.reader j) := by
+    intro h
+    have := (hi.rd j r hk).mpr h
+    simp [hpc, readerHolds] at this
+  have hb : bcF r = r := by simp [bcF, hpc]
+  have hT : completeSection c 8 s = setReader (completeSection c 8 s) j r := by
+    have := cs_setReader c j r hb 8 s hmu
+    rw [setReader_self s j r hk] at this
+    exact this
+  rw [absF_eq, absF_eq, cs_setReader c j _ (by simp [bcF]) 8 s hmu]
+  conv => rhs; rw [hT]
+  apply proj_setReader_congr
+  simp [projReader, hpc, htd]
+
+theorem sim_holder (c : MonCfg) (s s' : FSt) (hi : HInv s) (h : hstep c s = some s') :
+    absF c s' = absF c s := by
+  rw [absF_eq, absF_eq, cs_hstep c s s' hi h]
+
+theorem projProd_grow (done : Bool) (m i : Nat) (p : FProdPc) :
+    projProd (growProd done m i p) = growProdC done m i (projProd p) := by
+  unfold growProd growProdC
+  split
+  · exact projProd_signal p
+  · rfl
+
+theorem step_rEnter_mk (c : MonCfg) (len : Nat) (done : Bool) (maxLength consulted : Nat) (prod : ProdPc)
+    (readers : List Reader) (j i : Nat) (todo : List Nat) (results : List (Nat × Nat × Bool))
+    (h : readers[j]? = some ⟨.idle, i :: todo, results⟩) :
+    step c ⟨len, done, maxLength, consulted, prod, readers⟩ (.rEnter j) =
+      some ⟨len, done, growMax c done maxLength i, consulted, growProdC done maxLength i prod,
+        readers.set j (waitTail len done i ⟨.idle, todo, results⟩)⟩ := by
+  simp [step, h, growMax, growProdC]
+
+theorem sim_acq (c : MonCfg) (s : FSt) (j i : Nat) (r : FReader) (hmu : s.mu = none)
+    (hk : s.readers[j]? = some r) (hpc : r.pc = .acq i) :
+    step c (absF c s) (.rEnter j) =
+      some (absF c { setReader s j { r with pc := .r1 i } with mu := some (.reader j) }) := by
+  have hlt : j < s.readers.length := (List.getElem?_eq_some_iff.mp hk).1
+  rw [absF_eq, absF_eq, cs_none c 8 s hmu,
+    cs_r1 c 3 _ j i { r with pc := .r1 i } rfl (by simp [setReader, List.getElem?_set_self hlt]) rfl]
+  unfold proj
+  rw [step_rEnter_mk c _ _ _ _ _ _ j i r.todo r.results (by simp [hk, projReader, hpc])]
+  simp only [setReader, List.set_set, List.map_set, tailEnd_pc,
+    projReader_tailEnd s.len s.done i r ⟨.idle, r.todo, r.results⟩ rfl rfl, projProd_grow]
+
+theorem step_rWake_mk (c : MonCfg) (len : Nat) (done : Bool) (maxLength consulted : Nat) (prod : ProdPc)
+    (readers : List Reader) (j i : Nat) (todo : List Nat) (results : List (Nat × Nat × Bool))
+    (h : readers[j]? = some ⟨.woken i, todo, results⟩) :
+    step c ⟨len, done, maxLength, consulted, prod, readers⟩ (.rWake j) =
+      some ⟨len, done, maxLength, consulted, prod,
+        readers.set j (waitTail len done i ⟨.woken i, todo, results⟩)⟩ := by
+  simp [step, h]
+
+theorem sim_acqW (c : MonCfg) (s : FSt) (j i : Nat) (r : FReader) (hmu : s.mu = none)
+    (hk : s.readers[j]? = some r) (hpc : r.pc = .acqW i) :
+    step c (absF c s) (.rWake j) =
+      some (absF c { setReader s j { r with pc := .r4 i } with mu := some (.reader j) }) := by
+  have hlt : j < s.readers.length := (List.getElem?_eq_some_iff.mp hk).1
+  rw [absF_eq, absF_eq, cs_none c 8 s hmu,
+    cs_r4 c 6 _ j i { r with pc := .r4 i } rfl (by simp [setReader, List.getElem?_set_self hlt]) rfl]
+  unfold proj
+  rw [step_rWake_mk c _ _ _ _ _ _ j i r.todo r.results (by simp [hk, projReader, hpc])]
+  simp only [setReader, List.set_set, List.map_set, tailEnd_pc,
+    projReader_tailEnd s.len s.done i r ⟨.woken i, r.todo, r.results⟩ rfl rfl]
+
+def checkEndC (c : MonCfg) (len maxLength i : Nat) : ProdPc :=
+  if len ≥ maxLength then .parked i
+  else if c.chunk = 0 then .publishing i len false else .computing i 0 len
+
+theorem projProd_checkEnd (c : MonCfg) (len m i : Nat) :
+    projProd (checkEnd c len m i) = checkEndC c len m i := by
+  unfold checkEnd checkEndC
+  split
+  · rfl
+  · split <;> rfl
+
+theorem step_pCheck_mk (c : MonCfg) (len : Nat) (done : Bool) (maxLength consulted : Nat) (i : Nat)
+    (readers : List Reader) :
+    step c ⟨len, done, maxLength, consulted, .check i, readers⟩ .pCheck =
+      some ⟨len, done, maxLength, consulted, checkEndC c len maxLength i, readers⟩ := by
+  simp only [step, checkEndC]
+  split
+  · rfl
+  · split <;> rfl
+
+theorem sim_pacq (c : MonCfg) (s : FSt) (i : Nat) (hmu : s.mu = none)
+    (hpc : projProd s.prod = .check i) :
+    step c (absF c s) .pCheck = some (absF c { s with prod := .p1 i, mu := some .producer }) := by
+  rw [absF_eq, absF_eq, cs_none c 8 s hmu, cs_p1 c 6 _ i rfl rfl]
+  unfold proj
+  rw [hpc, step_pCheck_mk]
+  simp only [projProd_checkEnd]
+
+def publishNext (c : MonCfg) (i loc : Nat) (fin : Bool) : ProdPc :=
+  if fin then ProdPc.exited else if i + 1 < c.maxChunks then .check (i + 1) else .finalPublish loc
+
+theorem step_pPublish_mk (c : MonCfg) (len : Nat) (done : Bool) (maxLength consulted : Nat) (i loc : Nat)
+    (fin : Bool) (readers : List Reader) :
+    step c ⟨len, done, maxLength, consulted, .publishing i loc fin, readers⟩ .pPublish =
+      some ⟨loc, fin, maxLength, consulted, publishNext c i loc fin, broadcast readers⟩ := by
+  simp [step, publishNext]
+
+theorem step_pPublishF_mk (c : MonCfg) (len : Nat) (done : Bool) (maxLength consulted : Nat) (loc : Nat)
+    (readers : List Reader) :
+    step c ⟨len, done, maxLength, consulted, .finalPublish loc, readers⟩ .pPublish =
+      some ⟨loc, true, maxLength, consulted, .exited, broadcast readers⟩ := by
+  simp [step]
+
+theorem projProd_after (c : MonCfg) (i loc : Nat) (fin : Bool) :
+    projProd (afterPublish c i loc fin false) = publishNext c i loc fin := by
+  unfold afterPublish publishNext
+  cases fin
+  · simp only [Bool.or_self, Bool.false_eq_true, if_false]
+    split <;> rfl
+  · rfl
+
+theorem projProd_sAcq (i loc : Nat) (fin last : Bool) :
+    projProd (.sAcq i loc fin last) = if last then .finalPublish loc else .publishing i loc fin := rfl
+
+theorem projProd_computing (i j loc : Nat) : projProd (.computing i j loc) = .computing i j loc := rfl
+
+theorem sim_sacq (c : MonCfg) (s : FSt) (i loc : Nat) (fin last : Bool) (hmu : s.mu = none)
+    (hpc : s.prod = .sAcq i loc fin last) (hok : prodOk s.prod) :
+    step c (absF c s) .pPublish =
+      some (absF c { s with prod := .s1 i loc fin last, mu := some .producer }) := by
+  rw [absF_eq, absF_eq, cs_none c 8 s hmu, cs_s1 c 4 _ i loc fin last rfl rfl]
+  unfold proj
+  rw [hpc]
+  cases last with
+  | false =>
+    simp only [projProd_sAcq, Bool.false_eq_true, if_false]
+    rw [step_pPublish_mk]
+    simp only [projProd_after, proj_broadcast]
+  | true =>
+    have hf : fin = true := by rw [hpc] at hok; exact hok rfl
+    subst hf
+    simp only [projProd_sAcq, if_true]
+    rw [step_pPublishF_mk]
+    simp [proj_broadcast, afterPublish, projProd]
+
+theorem step_pCompute_mk (c : MonCfg) (len : Nat) (done : Bool) (maxLength consulted : Nat) (i j loc : Nat)
+    (readers : List Reader) :
+    step c ⟨len, done, maxLength, consulted, .computing i j loc, readers⟩ .pCompute =
+      some ⟨len, done, maxLength, consulted + 1,
+        if c.endTest (c.src consulted) then .publishing i loc true
+        else if j + 1 ≥ c.chunk then .publishing i (loc + 1) false
+        else .computing i (j + 1) (loc + 1), readers⟩ := by
+  simp only [step]
+  split
+  · rfl
+  · split <;> rfl
+
+theorem sim_compute (c : MonCfg) (s : FSt) (i j loc : Nat) (q : FProdPc) (hmu : s.mu ≠ some .producer)
+    (hpc : s.prod = .computing i j loc) (hq : fSignalProd q = q)
+    (hq2 : projProd q = if c.endTest (c.src s.consulted) then .publishing i loc true
+        else if j + 1 ≥ c.chunk then .publishing i (loc + 1) false
+        else .computing i (j + 1) (loc + 1)) :
+    step c (absF c s) .pCompute = some (absF c (upd (s.consulted + 1) q s)) := by
+  have hT : completeSection c 8 s = upd s.consulted s.prod (completeSection c 8 s) := by
+    have := cs_upd c s.consulted s.prod (by rw [hpc]; rfl) 8 s hmu
+    exact this
+  rw [absF_eq, absF_eq, cs_upd c _ q hq 8 s hmu, hT]
+  generalize completeSection c 8 s = T
+  unfold proj
+  simp only [upd, hpc, projProd_computing]
+  rw [step_pCompute_mk, hq2]
+
+theorem sim (c : MonCfg) (s s' : FSt) (l : FLabel) (hi : HInv s) (hok : prodOk s.prod)
+    (hs : fStep c s l = some s') :
+    absF c s' = absF c s ∨ ∃ L, step c (absF c s) L = some (absF c s') := by
+  cases l with
+  | r j =>
+    simp only [fStep] at hs
+    have hs0 := hs
+    unfold fStepReader at hs
+    cases hk : s.readers[j]? with
+    | none => simp [hk] at hs
+    | some r =>
+      simp only [hk] at hs
+      have hrd := hi.rd j r hk
+      have hold : readerHolds r.pc = true → absF c s' = absF c s := by
+        intro hh
+        have hmu := hrd.mp hh
+        exact sim_holder c s s' hi (by simp only [hstep, hmu]; exact hs0)
+      cases hpc : r.pc with
+      | idle =>
+        simp only [hpc] at hs
+        cases htd : r.todo with
+        | nil => simp [htd] at hs
+        | cons i rest =>
+          simp only [htd, Option.some.injEq] at hs
+          subst hs
+          exact Or.inl (sim_idle c s j i rest r hi hk hpc htd)
+      | acq i =>
+        simp only [hpc] at hs
+        by_cases hmu : s.mu = none
+        · simp only [hmu, if_true, Option.some.injEq] at hs
+          subst hs
+          exact Or.inr ⟨.rEnter j, sim_acq c s j i r hmu hk hpc⟩
+        · simp [hmu] at hs
+      | acqW i =>
+        simp only [hpc] at hs
+        by_cases hmu : s.mu = none
+        · simp only [hmu, if_true, Option.some.injEq] at hs
+          subst hs
+          exact Or.inr ⟨.rWake j, sim_acqW c s j i r hmu hk hpc⟩
+        · simp [hmu] at hs
+      | parked i => simp [hpc] at hs
+      | r1 i => exact Or.inl (hold (by rw [hpc]; rfl))
+      | r2 i => exact Or.inl (hold (by rw [hpc]; rfl))
+      | r3 i => exact Or.inl (hold (by rw [hpc]; rfl))
+      | r4 i => exact Or.inl (hold (by rw [hpc]; rfl))
+      | r5 i n ok => exact Or.inl (hold (by rw [hpc]; rfl))
+  | p =>
+    simp only [fStep] at hs
+    have hs0 := hs
+    have hpd := hi.prod
+    have hold : prodHolds s.prod = true → absF c s' = absF c s := by
+      intro hh
+      have hmu := hpd.mp hh
+      exact sim_holder c s s' hi (by simp only [hstep, hmu]; exact hs0)
+    cases hpc : s.prod with
+    | acq i =>
+      simp only [fStepProd, hpc] at hs
+      by_cases hmu : s.mu = none
+      · simp only [hmu, if_true, Option.some.injEq] at hs
+        subst hs
+        exact Or.inr ⟨.pCheck, sim_pacq c s i hmu (by rw [hpc]; rfl)⟩
+      · simp [hmu] at hs
+    | acqW i =>
+      simp only [fStepProd, hpc] at hs
+      by_cases hmu : s.mu = none
+      · simp only [hmu, if_true, Option.some.injEq] at hs
+        subst hs
+        exact Or.inr ⟨.pCheck, sim_pacq c s i hmu (by rw [hpc]; rfl)⟩
+      · simp [hmu] at hs
+    | sAcq i loc fin last =>
+      simp only [fStepProd, hpc] at hs
+      by_cases hmu : s.mu = none
+      · simp only [hmu, if_true, Option.some.injEq] at hs
+        subst hs
+        exact Or.inr ⟨.pPublish, sim_sacq c s i loc fin last hmu hpc hok⟩
+      · simp [hmu] at hs
+    | parked i => simp [fStepProd, hpc] at hs
+    | exited => simp [fStepProd, hpc] at hs
+    | p1 i => exact Or.inl (hold (by rw [hpc]; rfl))
+    | p2 i => exact Or.inl (hold (by rw [hpc]; rfl))
+    | s1 i loc fin last => exact Or.inl (hold (by rw [hpc]; rfl))
+    | s2 i loc fin last => exact Or.inl (hold (by rw [hpc]; rfl))
+    | s3 i loc fin last => exact Or.inl (hold (by rw [hpc]; rfl))
+    | s4 i loc fin last => exact Or.inl (hold (by rw [hpc]; rfl))
+    | computing i j loc =>
+      have hmu : s.mu ≠ some .producer := by
+        intro h
+        have := hpd.mpr h
+        simp [hpc, prodHolds] at this
+      refine Or.inr ⟨.pCompute, ?_⟩
+      simp only [fStepProd, hpc] at hs
+      by_cases h1 : c.endTest (c.src s.consulted) = true
+      · simp only [h1, if_true, Option.some.injEq] at hs
+        subst hs
+        exact sim_compute c s i j loc (.sAcq i loc true false) hmu hpc rfl (by simp [h1, projProd])
+      · by_cases h2 : j + 1 ≥ c.chunk
+        · simp only [h1, h2, if_true, Bool.false_eq_true, if_false, Option.some.injEq] at hs
+          subst hs
+          exact sim_compute c s i j loc (.sAcq i (loc + 1) false false) hmu hpc rfl (by simp [h1, h2, projProd])
+        · simp only [h1, h2, Bool.false_eq_true, if_false, Option.some.injEq] at hs
+          subst hs
+          exact sim_compute c s i j loc (.computing i (j + 1) (loc + 1)) hmu hpc rfl (by simp [h1, h2, projProd])
+
+/-! ### coarse runs -/
+
+theorem runLabels_snoc (c : MonCfg) (ls : List Label) : ∀ (s s' s'' : MonSt) (l : Label),
+    runLabels c s ls = some s' → step c s' l = some s'' → runLabels c s (ls ++ [l]) = some s'' := by
+  induction ls with
+  | nil => intro s s' s'' l h1 h2; simp [runLabels] at h1; subst h1; simp [runLabels, h2]
+  | cons a ls ih =>
+    intro s s' s'' l h1 h2
+    simp only [runLabels, List.cons_append] at h1 ⊢
+    cases ha : step c s a with
+    | none => simp [ha] at h1
+    | some t => simp only [ha] at h1 ⊢; exact ih t s' s'' l h1 h2
+
+theorem reachable_step (c : MonCfg) (programs : List (List Nat)) (s s' : MonSt) (l : Label)
+    (h : Reachable c programs s) (hs : step c s l = some s') : Reachable c programs s' := by
+  obtain ⟨ls, hls⟩ := h
+  exact ⟨ls ++ [l], runLabels_snoc c ls _ s s' l hls hs⟩
+
+/-! ### results are never lost -/
+
+def Keeps (s s' : FSt) : Prop :=
+  ∀ (k : Nat) (r : FReader), s.readers[k]? = some r →
+    ∃ r2 : FReader, s'.readers[k]? = some r2 ∧ ∀ res ∈ r.results, res ∈ r2.results
+
+theorem keeps_refl (s : FSt) : Keeps s s := fun _ r h => ⟨r, h, fun _ h => h⟩
+
+theorem keeps_trans {a b d : FSt} (h1 : Keeps a b) (h2 : Keeps b d) : Keeps a d := by
+  intro k r h
+  obtain ⟨r2, h3, h4⟩ := h1 k r h
+  obtain ⟨r3, h5, h6⟩ := h2 k r2 h3
+  exact ⟨r3, h5, fun res hr => h6 res (h4 res hr)⟩
+
+theorem keeps_set (s s' : FSt) (j : Nat) (r0 r' : FReader) (h0 : s.readers[j]? = some r0)
+    (hsub : ∀ res ∈ r0.results, res ∈ r'.results) (hrd : s'.readers = s.readers.set j r') : Keeps s s' := by
+  intro k r hk
+  have hlt : j < s.readers.length := (List.getElem?_eq_some_iff.mp h0).1
+  rw [hrd, List.getElem?_set]
+  by_cases hjk : j = k
+  · subst hjk
+    rw [h0] at hk
+    cases hk
+    exact ⟨r', by simp [hlt], hsub⟩
+  · exact ⟨r, by simp [hjk, hk], fun _ h => h⟩
+
+theorem keeps_bc (s s' : FSt) (hrd : s'.readers = fBroadcast s.readers) : Keeps s s' := by
+  intro k r hk
+  refine ⟨bcF r, by simp [hrd, fBroadcast_eq, hk], ?_⟩
+  unfold bcF
+  split <;> exact fun _ h => h
+
+theorem keeps_same (s s' : FSt) (hrd : s'.readers = s.readers) : Keeps s s' := by
+  intro k r hk
+  exact ⟨r, by rw [hrd]; exact hk, fun _ h => h⟩
+
+theorem keeps_step (c : MonCfg) (s s' : FSt) (l : FLabel) (hs : fStep c s l = some s') : Keeps s s' := by
+  cases l with
+  | r j =>
+    simp only [fStep] at hs
+    unfold fStepReader at hs
+    split at hs
+    · cases hs
+    · rename_i r hk
+      split at hs
+      all_goals (try split at hs)
+      all_goals (first | cases hs | skip)
+      all_goals
+        refine keeps_set s _ j r _ hk ?_ rfl
+      all_goals simp +contextual
+  | p =>
+    simp only [fStep] at hs
+    cases hpc : s.prod <;> simp only [fStepProd, hpc] at hs
+    all_goals (repeat' (split at hs))
+    all_goals (first | cases hs | skip)
+    all_goals (first | exact keeps_same _ _ rfl | exact keeps_bc _ _ rfl)
+
+theorem keeps_cs (c : MonCfg) : ∀ (n : Nat) (s : FSt), Keeps s (completeSection c n s) := by
+  intro n
+  induction n with
+  | zero => intro s; exact keeps_refl s
+  | succ n ih =>
+    intro s
+    rw [cs_succ]
+    cases h : hstep c s with
+    | none => exact keeps_refl s
+    | some t =>
+      obtain ⟨l, hl⟩ := hstep_fStep c s t h
+      exact keeps_trans (keeps_step c s t l hl) (ih t)
+
+theorem projReader_results (r : FReader) : ∀ res ∈ r.results, res ∈ (projReader r).results := by
+  intro res h
+  cases r with
+  | mk pc todo results => cases pc <;> simp_all [projReader]
+
+end MF
+open MF
+
 theorem mutex_invariant (c : MonCfg) (programs : List (List Nat)) (s : FSt)
     (h : FReachable c programs s) : MutexInv s := by
-  sorry
+  have hi := hinv_reachable c programs s h
+  exact ⟨hi.prod, hi.rd⟩
 
 theorem absF_init (c : MonCfg) (programs : List (List Nat)) :
     absF c (fInit programs) = monInit programs := by
-  sorry
+  rw [absF_eq, cs_none c 8 _ rfl]
+  simp [proj, fInit, monInit, projProd, projReader]
 
 /-- forward simulation: every fine step is a stutter or exactly one coarse transition -/
 theorem fine_step_simulates (c : MonCfg) (programs : List (List Nat)) (s s' : FSt) (l : FLabel)
     (h : FReachable c programs s) (hs : fStep c s l = some s') :
-    absF c s' = absF c s ∨ ∃ L, step c (absF c s) L = some (absF c s') := by
-  sorry
+    absF c s' = absF c s ∨ ∃ L, step c (absF c s) L = some (absF c s') :=
+  sim c s s' l (hinv_reachable c programs s h) (pok_reachable c programs s h) hs
 
 /-- hence every fine execution is (after abstraction) a coarse execution … -/
 theorem fine_refines_coarse (c : MonCfg) (programs : List (List Nat)) (s : FSt)
     (h : FReachable c programs s) : Reachable c programs (absF c s) := by
-  sorry
+  refine freach_induct c programs (P := fun s => Reachable c programs (absF c s)) ?_ ?_ s h
+  · rw [absF_init]; exact ⟨[], rfl⟩
+  · intro s s' l hr hp hs
+    rcases fine_step_simulates c programs s s' l hr hs with h1 | ⟨L, hL⟩
+    · rw [h1]; exact hp
+    · exact reachable_step c programs _ _ L hp hL
 
 /-- … and the sequential-answer theorem holds for fine executions: every `wait(index)` that has
 returned (its result is recorded) gave the sequential answer -/
@@ -43,6 +1025,14 @@ theorem fine_sequential_answers (c : MonCfg) (hc : 0 < c.chunk) (programs : List
     ∀ r ∈ s.readers, ∀ res ∈ r.results,
       (res.2.2 = true → res.1 < res.2.1 ∧ ∀ k, k < res.2.1 → ValidUpTo c k) ∧
       (res.2.2 = false → ∃ e, e ≤ res.1 ∧ IsEndPos c e) := by
-  sorry
+  intro r hr res hres
+  obtain ⟨k, hk⟩ := List.mem_iff_getElem?.mp hr
+  obtain ⟨r2, h2, h3⟩ := keeps_cs c 8 s k r hk
+  have hmem : projReader r2 ∈ (absF c s).readers := by
+    rw [absF_eq]
+    apply List.mem_iff_getElem?.mpr
+    exact ⟨k, by simp [proj, h2]⟩
+  exact mon_safety c hc programs hcap (absF c s) (fine_refines_coarse c programs s h) _ hmem res
+    (projReader_results r2 res (h3 res hres))
 
 end Sqroot.Proofs
